@@ -56,8 +56,11 @@ def _listener(L, count=None):
     return Lst
 
 
-def _setup(sx, sh, hkind):
-    rew = sym_rewards(sx, sh, -1, 0, per_next_state=False)
+def _setup(sx, sh, hkind, const_rewards=False):
+    if const_rewards:
+        rew = {(s, a, ns): sx.const(F(-(1 + ((s + 2 * a) % 3)), 4)) for s in range(sh.S) for a in sh.avail[s] for ns in sh.rows[(s, a)]}
+    else:
+        rew = sym_rewards(sx, sh, -1, 0, per_next_state=False)
     absorbing = set(sh.absorb)
     Vs, Qs = bellman_optimal(sx, sh, rew, absorbing)
     if hkind == 'zero':
@@ -70,13 +73,17 @@ def _setup(sx, sh, hkind):
     return rew, absorbing, Vs, Qs, h
 
 
-def full_run(sx, shape, hkind, rao, T, L):
+def full_run(sx, shape, hkind, rao, T, L, warm=False):
+    """warm=True: the SAME planner object first plans on a different problem over the same state labels (state 1 is an ordinary
+    state there and absorbing in the problem under test); the statement is per plan_on call, so nothing may carry over"""
     sh = SHAPES[shape]
+    if warm:
+        sh_warm, sh = sh, sh.with_(absorb=sorted(set(sh.absorb) | {1}), name=sh.name + '+1-absorbing')
     Ls, AL = sh.slabels, sh.alabels
     g = sx.const(sh.gamma)
     from msdm.algorithms.lrtdp import LRTDP
     eps = sx.real('bellman_error_margin', 0, 1, lo_open=True)
-    rew, absorbing, Vs, Qs, h = _setup(sx, sh, hkind)
+    rew, absorbing, Vs, Qs, h = _setup(sx, sh, hkind, const_rewards=warm)
     with facade(sx):
         mdp = build_mdp(sx, sh, rew)
         planner = LRTDP(heuristic=lambda s: h[Ls.index(s)], bellman_error_margin=eps, iterations=T, randomize_action_order=rao,
@@ -84,6 +91,11 @@ def full_run(sx, shape, hkind, rao, T, L):
         import warnings
         with warnings.catch_warnings():
             warnings.simplefilter('ignore')
+            if warm:
+                warm_mdp = build_mdp(sx, sh_warm, rew)
+                with sx.must_not_raise('plan_on(first problem)'):
+                    planner.plan_on(warm_mdp)
+                trials.clear()
             with sx.must_not_raise('plan_on'):
                 res = planner.plan_on(mdp)
         init = [s for s, p in sh.s0.items() if p > 0]
@@ -211,6 +223,10 @@ def jobs(tier):
                     continue
                 Ti, Li = (2, 3) if (quick and i >= 1) else (T, L)
                 yield ('full_run', dict(shape=i, hkind=hk, rao=rao, T=Ti, L=Li), dict(o, cost=10))
+        if i == 1:
+            yield ('full_run', dict(shape=i, hkind='sym', rao=False, T=2, L=3, warm=True), dict(o, cost=10))
+            if not quick:
+                yield ('full_run', dict(shape=i, hkind='sym', rao=True, T=3, L=4, warm=True), dict(o, cost=10))
         nonabs = [s for s in range(sh.S) if s not in sh.absorb]
         import itertools
         for r in range(0, len(nonabs) + 1):
